@@ -29,7 +29,9 @@ CHECKS = {
                   "r.messages of every method of *reader off /repo/log_reader.go (harness/cmd/protoscan, go/ast) and comparing them with "
                   "lib/readergc_protocol.txt. "
                   "Not expressible in the models: Go's memory model and the atomicity of the lock primitives themselves (data-race "
-                  "freedom is decided by the race detector), the index lock indexMu, Stat. The model Conc.v is tied to "
+                  "freedom is decided by the race detector), the index lock indexMu, Stat. The transcription of Conc.v is checked the same way "
+                  "(the lock operations on writerMu / readersMu / deleteMu of every method of *log in /repo/log.go, in order, against "
+                  "lib/log_lock_protocol.txt). The model Conc.v is tied to "
                   "/repo by pause points (tag verif): ~1500 (thorough 20000) placements of one or two calls inside the windows "
                   "publish.written / publish.rolled / delete.found / delete.synced / delete.rewritten of a held call on 1-4 segment logs - "
                   "the implementation's outcome (results of all calls, live messages, NextOffset) must be among the outcomes the extracted "
